@@ -592,7 +592,9 @@ twin, _replay_twin = adopt_twin('twin.tC04', FINDING_PATTERNS)
 
 
 def replay(unit, name, model):
-    return {'reproduced': False, 'what': 'no native replay for proof counterexamples of this unit'}
+    """native replay of a solver model on the real classes (props/replay_auth.py)"""
+    from props import replay_auth
+    return replay_auth.replay(unit, name, model)
 
 
 def replay_file(doc):
